@@ -119,9 +119,9 @@ pub fn broadcast_pool(var: u64) -> Vec<Leaf> {
 pub fn image_pool(var: u64) -> Vec<Leaf> {
     let v = var as f64;
     vec![
-        Leaf { dims: vec![2, 1, 3, 3], vals: (0..18).map(|i| ((i * 5 + 1) % 7) as f64 - 2.0 + v).collect() },
+        Leaf { dims: vec![2, 1, 4, 4], vals: (0..32).map(|i| ((i * 5 + 1) % 7) as f64 - 2.0 + v).collect() },
         Leaf { dims: vec![2, 1, 2, 2], vals: vec![1.0, -2.0, 3.0 + v, 2.0, -1.0, 1.0, 2.0, -3.0] },
         Leaf { dims: vec![2, 1, 1], vals: vec![1.0, -2.0 - v] },
-        Leaf { dims: vec![2, 2, 2], vals: vec![2.0, 1.0, -1.0, 3.0, 1.0 + v, -2.0, 2.0, 1.0] },
+        Leaf { dims: vec![2, 3, 1], vals: vec![2.0, 1.0, -1.0, 3.0, 1.0 + v, -2.0] },
     ]
 }
